@@ -13,6 +13,7 @@ tvars == <<vars, tid, l, pos>>
 Vdi == INSTANCE Vdi
 Vhd == INSTANCE Vhd
 Hds == INSTANCE Hds
+Vhdx == INSTANCE Vhdx
 
 Traces == ndJsonDeserialize(IOEnv.TRACE_FILE)
 T      == Traces[tid]
@@ -25,9 +26,14 @@ VhdImg(j) == [kind |-> j.kind, n |-> j.n, cb |-> j.cb, bat |-> Fn0(j.bat), size 
 
 HdsImg(j) == [kind |-> j.kind, ver |-> j.ver, n |-> j.n, cb |-> j.cb, bat |-> Fn0(j.bat), size |-> j.size, parent |-> j.parent]
 
+SetOf(s) == {s[x] : x \in 1..Len(s)}
+VhdxImg(j) == [n |-> j.n, cb |-> j.cb, size |-> j.size, parent |-> j.parent,
+               bat |-> [b \in 0..j.n-1 |-> [st |-> j.st[b + 1], p |-> j.p[b + 1], bm |-> SetOf(j.bm[b + 1])]]]
+
 Src(q) == CASE T.fmt = "vdi" -> Vdi!CellSrc(VdiImg(T.img), q)
             [] T.fmt = "vhd" -> Vhd!CellSrc(VhdImg(T.img), q)
             [] T.fmt = "hds" -> Hds!CellSrc(HdsImg(T.img), q)
+            [] T.fmt = "vhdx" -> Vhdx!CellSrc(VhdxImg(T.img), q)
 
 Ev == T.events[l]
 
